@@ -58,6 +58,22 @@ class MQ2Harness(ec.Harness):
         return super().classify(ev)
 
 
+class CounterTap(ec.Tap):
+    """the next hop: at the moment its put() is called it reads the scheduler's public counters (as a downstream element
+    that looks at the occupancy of its upstream scheduler would); the reading is appended to the logged output"""
+
+    def __init__(self, h, tag, box, idx, flows):
+        super().__init__(h, tag)
+        self.box, self.idx, self.flows = box, idx, flows
+
+    def put(self, p):
+        s = self.box[self.idx]
+        snap = [[[f, s.queue_count.get(f, 0), s.queue_byte_size.get(f, 0)] for f in self.flows], s.total_packets]
+        uid = getattr(p, "uid", None)
+        self.got.append(p)
+        self.h._emit(["out", self.tag, uid, ec.pkt_fields(p), id(p) == id(self.h.packets.get(uid)), snap])
+
+
 class Lazy:
     """target of a driver created before its scheduler exists"""
 
@@ -183,7 +199,7 @@ def extracted_schedmon(repo):
 
 class MQPart:
     name = "mq"
-    kinds = ["sp", "rr", "wrr", "schedmon", "mq2"]
+    kinds = ["sp", "rr", "wrr", "schedmon", "mq2", "mqfloat"]
     serves = ["C12", "C13", "C15", "C08"]
     weight = 3
     coq_imports = ["From ONL Require Import Base.Cmp Elem.Packet Elem.StoreQ Elem.SchedBase Elem.SP Elem.RR Elem.WRR."]
@@ -211,7 +227,12 @@ class MQPart:
             "types) in one Environment with interleaved workloads over shared flow / class ids, each replayed against its own "
             "copy of the model, plus the independence monitor instances-interfere; in 10% of the cases the scheduler has no "
             "next hop (out = None): departures are then observed only through counters, current_packet and Monitor samples; "
-            "Monitor scripts end with 1-3 samples in the idle period after the last busy period")
+            "Monitor scripts end with 1-3 samples in the idle period after the last busy period; in 15% of the cases LATE "
+            "CONFIGURATION: the scheduler is constructed with another rate (and, SP, debug=True / default flow2class) and the "
+            "public attributes rate / debug / flow2class are assigned before any traffic; the tap behind the scheduler reads "
+            "queue_count / queue_byte_size / total_packets inside its put() (sched-counters-at-forward, also compared in the "
+            "correspondence); for C12 5% float-mode cases (kind mqfloat, monitor only): rate not a power of two, burst at "
+            "t = 0, every departure must be the binary64 value now + size * 8.0 / rate")
     nontrivial_rule = {
         "C12": _gen + "; non-trivial = at least 3 packets and some packet had to wait for an earlier transmission; distinct by hash",
         "C13": _gen + " (SP only); non-trivial = at some service decision classes of at least two priority levels were backlogged; distinct by hash",
@@ -260,6 +281,8 @@ class MQPart:
             if rng.random() < 0.5:
                 subs[1]["rate"] = subs[0]["rate"]
             return {"kind": "mq2", "inst": subs}
+        if prop_id == "C12" and rng.random() < 0.05:
+            return self._gen_float(rng, rng.choice(["sp", "rr", "wrr"]))
         if prop_id == "C13":
             kind = rng.choice(["sp", "sp", "sp", "sp", "schedmon"])
             sched = "sp"
@@ -316,8 +339,32 @@ class MQPart:
             # samples in the idle period after the last busy period
             dist += [rng.choice([Fraction(4), Fraction(8), Fraction(16), Fraction(32)]) for _ in range(rng.randint(1, 3))]
             mon = {"dist": [cf.qjson(d) for d in dist], "included": rng.random() < 0.5}
+        # late configuration: public attributes that run()/send_packet/put read on every use (rate, debug, flow2class; out
+        # is always assigned after construction) are given other values at construction and assigned before any traffic
+        late = None
+        if rng.random() < 0.15:
+            attrs = ["rate"]
+            if sched == "sp":
+                if rng.random() < 0.5:
+                    attrs.append("debug")
+                if cmap and rng.random() < 0.7:
+                    attrs.append("flow2class")
+            late = {"attrs": attrs, "rate0": rng.choice([r for r in (256, 1024, 4096, 32768, 1000, 8000) if r != rate])}
         return {"kind": kind, "sched": sched, "rate": rate, "classes": classes, "cmap": cmap, "workload": w, "pre": pre,
-                "monitor": mon, "noout": noout}
+                "monitor": mon, "noout": noout, "late": late}
+
+    def _gen_float(self, rng, sched):
+        """float mode (monitor only): a rate that is not a power of two; one flow, a burst at t = 0; the k-th departure must
+        be the binary64 value the documented formula gives: now + size * 8.0 / rate, evaluated as Python evaluates it"""
+        f = rng.randrange(0, 7)
+        rate = rng.choice([8000, 8000, 1000, 3000, 10000, 56000, 1000000])
+        n = rng.randint(1, 4)
+        sizes = [rng.choice([43, 51, 59, 71, 100, 333, 1000, 1500, 64, 7]) for _ in range(n)]
+        packets = {str(i): {"id": i + 1, "flow": f, "size": sz, "time": "0/1", "src": "src0"} for i, sz in enumerate(sizes)}
+        classes = [[f, 1]]
+        return {"kind": "mqfloat", "sched": sched, "rate": rate, "classes": classes, "cmap": None,
+                "workload": {"packets": packets, "drivers": [{"late": 0, "bursts": [["0/1", list(range(n))]]}]},
+                "pre": [rng.random() < 0.3], "monitor": None, "noout": False, "late": None}
 
     # ---- implementation -------------------------------------------------------------------------
     def run_impl(self, case):
@@ -328,17 +375,33 @@ class MQPart:
     @staticmethod
     def _make(env, case):
         rate, classes = case["rate"], case["classes"]
+        late = case.get("late") or {}
+        la = late.get("attrs") or []
+        rate0 = late["rate0"] if "rate" in la else rate
         if case["sched"] == "sp":
             from onl.scheduler.sp import SP
+            kw = {}
+            m = None
             if case.get("cmap"):
                 m = {f: k for f, k in case["cmap"]}
-                return SP(env, rate, {k: p for k, p in classes}, flow2class=lambda f, m=m: m[f])
-            return SP(env, rate, {f: p for f, p in classes})
-        if case["sched"] == "rr":
+                if "flow2class" not in la:
+                    kw["flow2class"] = lambda f, m=m: m[f]
+            if "debug" in la:
+                kw["debug"] = True
+            s = SP(env, rate0, {k: p for k, p in classes}, **kw)
+            if "flow2class" in la:
+                s.flow2class = lambda f, m=m: m[f]
+            if "debug" in la:
+                s.debug = False
+        elif case["sched"] == "rr":
             from onl.scheduler.rr import RR
-            return RR(env, rate, [f for f, _ in classes])
-        from onl.scheduler.wrr import WRR
-        return WRR(env, rate, {f: wt for f, wt in classes})
+            s = RR(env, rate0, [f for f, _ in classes])
+        else:
+            from onl.scheduler.wrr import WRR
+            s = WRR(env, rate0, {f: wt for f, wt in classes})
+        if "rate" in la:
+            s.rate = rate              # the link speed is (re)configured before any traffic
+        return s
 
     def _run_many(self, subs):
         """several instances in one Environment -> per instance an observation in the single-instance format (global clock
@@ -368,7 +431,7 @@ class MQPart:
         with contextlib.redirect_stdout(sink):
             for i, c in enumerate(subs):
                 s = self._make(env, c)
-                s.out = None if c.get("noout") else h.tap("out@" + tags[i])
+                s.out = None if c.get("noout") else CounterTap(h, "out@" + tags[i], box, i, cfg_flows(c))
                 s.proc._generator.__name__ = "run@" + tags[i]
                 orig = s.send_packet
 
@@ -500,20 +563,8 @@ class MQPart:
         import signal
         import time
         with contextlib.redirect_stdout(sink):
-            if case["sched"] == "sp":
-                from onl.scheduler.sp import SP
-                if case.get("cmap"):
-                    m = {f: k for f, k in case["cmap"]}
-                    s = SP(env, rate, {k: p for k, p in classes}, flow2class=lambda f, m=m: m[f])
-                else:
-                    s = SP(env, rate, {f: p for f, p in classes})
-            elif case["sched"] == "rr":
-                from onl.scheduler.rr import RR
-                s = RR(env, rate, [f for f, _ in classes])
-            else:
-                from onl.scheduler.wrr import WRR
-                s = WRR(env, rate, {f: wt for f, wt in classes})
-            s.out = None if case.get("noout") else h.tap("out")
+            s = self._make(env, case)
+            s.out = None if case.get("noout") else CounterTap(h, "out", [s], 0, flows)
             h.attach(s)
             mon = None
             dist = None
@@ -612,6 +663,10 @@ class MQPart:
                 return None, f"unexpected log entry {e[:2]}"
             fw = cf.lst([f"SchedBase.OForward {ec.pkt_coq(specs[str(x[2])], x[2])}" for x in outs])
             q, cur, rec, tok, tot, m, st = sample
+            for x in outs:
+                # what the next hop read at the hand-off must be the state the model is in after the action
+                if len(x) > 5 and (x[5][0] != q or x[5][1] != tot):
+                    return None, f"counters read by the next hop at the hand-off {x[5]} differ from the state after the action {[q, tot]}"
             if any(x[1] is None or x[2] is None for x in m):
                 return None, "monitor sample lists of unequal length"
             qs = cf.lst([f"({cf.z(f)}, {cf.z(c)}, {cf.z(b)})" for f, c, b in q])
@@ -621,6 +676,8 @@ class MQPart:
         return acts, None
 
     def agree_term(self, case, obs):
+        if case["kind"] == "mqfloat":
+            return None                 # binary64 times with a non-dyadic rate: outside the rational model, monitor only
         if case["kind"] == "mq2":
             if obs["interfere"]:
                 return "false (* instances interfere *)"
@@ -666,7 +723,7 @@ class MQPart:
             ev = {"idx": idx, "kind": kind, "now": now, "label": e[1] if kind == "step" else None, "sample": sample,
                   "waiting_before": {f: list(v) for f, v in waiting.items()}, "insvc_before": insvc,
                   "committed_before": committed, "held_before": len(arrived) - len(forwarded), "deq": None, "start": None,
-                  "fwd": []}
+                  "fwd": [], "fwd_snap": []}
             if kind == "adv":
                 t = Fraction(e[1])
                 ev["to"] = t
@@ -722,6 +779,8 @@ class MQPart:
                     uid = o[2] if o is not None else insvc[0]
                     ev["fwd"].append(uid)
                     forwarded.append(uid)
+                    if o is not None and len(o) > 5:
+                        ev["fwd_snap"].append((uid, o[5]))
                     sp = specs.get(str(uid))
                     if o is not None and (sp is None or not o[4] or o[3][:2] != [sp["id"], sp["flow"]] or o[3][3] != sp["size"]
                                           or Fraction(o[3][4]) != Fraction(sp["time"]) or o[3][2] != sp.get("src", "s")):
@@ -730,6 +789,9 @@ class MQPart:
                         W["msgs"].append(f"mq-forward-not-in-service: packet {uid} forwarded at {now} while in service: {insvc}")
                     else:
                         due = insvc[1] + Fraction(8 * sp["size"], case["rate"])
+                        if case["kind"] == "mqfloat":
+                            # binary64: the instant the kernel computes from the documented delay size * 8.0 / rate
+                            due = Fraction(float(insvc[1]) + sp["size"] * 8.0 / case["rate"])
                         if now != due:
                             W["msgs"].append(f"mq-tx-time: packet {uid} (size {sp['size']}) started {insvc[1]} ended {now}, "
                                              f"expected {due} = start + 8*size/rate")
@@ -794,6 +856,15 @@ class MQPart:
                 for u in ev["fwd"]:
                     if u in held_flow[fl(u)]:
                         held_flow[fl(u)].remove(u)
+                for (u, snap) in ev["fwd_snap"]:
+                    # the next hop reads the counters inside its put(): the departing packet is no longer counted
+                    exp = [[f, len(held_flow[f]), sum(specs[str(x)]["size"] for x in held_flow[f])] for f in flows]
+                    etot = sum(len(v) for v in held_flow.values())
+                    if snap[0] != exp or snap[1] != etot:
+                        bad = [(a, b) for a, b in zip(snap[0], exp) if a != b][:2]
+                        msgs.append(f"sched-counters-at-forward: when packet {u} (flow {fl(u)}) is handed to the next hop at {ev['now']} "
+                                    f"the counters [flow, queue_count, queue_byte_size] read {[a for a, _ in bad] or snap[1]} / total_packets "
+                                    f"{snap[1]}, packets still waiting: {[b for _, b in bad] or etot} / {etot}")
                 for f, c, b in q:
                     ec_, eb = len(held_flow[f]), sum(specs[str(u)]["size"] for u in held_flow[f])
                     if (c, b) != (ec_, eb):
@@ -968,6 +1039,8 @@ class MQPart:
             keys.append(f"{k}:service_included={case['monitor']['included']}")
         if case.get("noout"):
             keys.append(f"{k}:no-next-hop")
+        if case.get("late"):
+            keys.append(f"{k}:late-config=" + "+".join(case["late"]["attrs"]))
         if case.get("cmap"):
             nk = len({c for _, c in case["cmap"]})
             keys.append(f"{k}:flow2class={len(case['cmap'])}flows->{nk}classes")
